@@ -6,6 +6,7 @@ import (
 	"errors"
 	"fmt"
 	"io"
+	"os"
 	"sort"
 	"strconv"
 	"strings"
@@ -273,6 +274,61 @@ func runC15(r *core.Run) {
 			r.Sample(map[string]any{"dump": b2s(c.Dump.Render(), 900)})
 		}
 	})
+	c15Sources(r)
+}
+
+// c15Sources: the labelling laws on real tracebacks of generated programs scanned with path guessing and
+// source analysis on top of naming (the default options): analysis runs after naming and must leave the labels and
+// the pointer classification alone. The programs pass slices and strings whose length is above the classification
+// floor, so that words which are not addresses get named.
+func c15Sources(r *core.Run) {
+	np := r.N(3, 24)
+	core.Parallel(np, workers(), func(k int) {
+		c := &c19Case{Seed: r.Seed, Idx: 15000 + k, Toolchain: "go", Naming: true}
+		bp, err := buildAndCrash(c)
+		if err != nil {
+			r.Broken(err.Error())
+			return
+		}
+		defer os.RemoveAll(bp.dir)
+		on, _, _, _ := scanAll(bp.trace, c19Opts(bp.goroot, true, true))
+		plain, _, _, _ := scanAll(bp.trace, c19Opts(bp.goroot, false, true))
+		r.Eval(2)
+		report := func(key, what string) {
+			r.Violation(key, "real traceback, naming + source analysis: "+what, "srcnames", map[string]any{"trace": string(bp.trace), "src": bp.prog.Src, "src2": bp.prog.Src2})
+		}
+		if on == nil || plain == nil {
+			report("nosnapshot", "real traceback not parsed")
+			return
+		}
+		if k, w := checkNames(on); k != "" {
+			report(k, w)
+			return
+		}
+		if d := mon.DiffSnapshot(plain, on, mon.EqOpt{IgnoreProcessed: true}); d != "" {
+			report("analysis-changes-labelling", "source analysis changed names or classification: "+d)
+			return
+		}
+		named, typed := 0, 0
+		for _, g := range on.Goroutines {
+			for ci := range g.Stack.Calls {
+				if len(g.Stack.Calls[ci].Args.Processed) != 0 {
+					typed++
+				}
+				walkArgs(&g.Stack.Calls[ci].Args, func(a *stack.Arg) {
+					if a.Name != "" {
+						named++
+					}
+				})
+			}
+		}
+		r.Count("source_phase_named_arguments", named)
+		r.Count("source_phase_frames_with_typed_args", typed)
+		r.DistinctN(1)
+	})
+	if r.Counter("source_phase_named_arguments") == 0 || r.Counter("source_phase_frames_with_typed_args") == 0 {
+		r.Broken("the source phase of C15 saw no named argument or no typed frame")
+	}
 }
 
 func replayC15(r *core.Run, kind string, raw json.RawMessage) {
